@@ -837,7 +837,14 @@ def gen_case(rng, ti=None):
             f'vle PH @ v{round(rng.uniform(0.03, 0.97), 3)}', f'vle PS @ v{round(rng.uniform(0.03, 0.97), 3)}',
             f'vle TH @ v{round(rng.uniform(0.03, 0.97), 3)}', f'vle TS @ v{round(rng.uniform(0.03, 0.97), 3)}',
             f'vle TV @ {round(rng.uniform(0.03, 0.97), 4)}', f'vle PV @ {round(rng.uniform(0.03, 0.97), 4)}',
-            f'vle PV {round(P * rng.uniform(0.7, 1.4), 1)} {round(rng.uniform(0.03, 0.97), 4)}']
+            f'vle PV {round(P * rng.uniform(0.7, 1.4), 1)} {round(rng.uniform(0.03, 0.97), 4)}',
+            # the specified T / P differs from the stream's current one (for every pair, whatever the number of chemicals)
+            f'vle PH *{rng.choice([0.8, 1.25])} v{round(rng.uniform(0.03, 0.97), 3)}',
+            f'vle PS *{rng.choice([0.8, 1.25])} v{round(rng.uniform(0.03, 0.97), 3)}',
+            f'vle TH +{rng.choice([-6, 7])} v{round(rng.uniform(0.03, 0.97), 3)}',
+            f'vle TS +{rng.choice([-6, 7])} v{round(rng.uniform(0.03, 0.97), 3)}',
+            f'vle TV +{rng.choice([-6, 7])} {round(rng.uniform(0.03, 0.97), 4)}',
+            f'vle PV *{rng.choice([0.8, 1.25])} {round(rng.uniform(0.03, 0.97), 4)}']
     if rng.random() < 0.5:
         ops.append('vle TP @ @')
         ops.append(f'revle {rng.choice([2.0, 0.25, 3.0, 10.0, 1.5])}')
@@ -873,8 +880,30 @@ def generate(rng, tier, index, nworkers):
         yield gen_case(rng, ti=(index + i) % len(FAMILIES))
 
 
+def spec_grid():
+    """every specification pair × {one chemical, several, several + inert gas and solute} on a FRESH stream whose current
+    T and P (300 K, 101325 Pa) differ from the specified ones: the complete table of `dispatch`, every run"""
+    feeds = {'one': 'feed 0 300.0 101325.0 l:Ethanol=10.0',
+             'one-hc': 'feed 4 300.0 101325.0 l:Heptane=2.5',
+             'many': 'feed 0 300.0 101325.0 l:Methanol=4.0,Ethanol=3.5,1-Butanol=2.5',
+             'binary': 'feed 1 300.0 101325.0 l:Hexane=6.0,Octane=4.0',
+             'inert': 'feed 3 300.0 101325.0 l:Methanol=5.0,1-Propanol=5.0,Glucose=0.2 g:O2=0.3'}
+    specs = ['vle TP 345.0 60000.0', 'vle TV 345.0 0.4', 'vle TH 345.0 v0.4', 'vle TS 345.0 v0.4',
+             'vle PV 60000.0 0.4', 'vle PH 60000.0 v0.4', 'vle PS 60000.0 v0.4']
+    out = []
+    for f in feeds.values():
+        for sp in specs:
+            out.append(Case([f, sp]))
+            # … and after an earlier flash of the same stream at other conditions
+            out.append(Case([f, 'vle PV 150000.0 0.7', sp]))
+    for f in (feeds['binary'], feeds['one']):
+        for sp in ('vle Tx +3 @', 'vle Ty +3 @', 'vle Px *0.8 @', 'vle Py *0.8 @'):
+            out.append(Case([f, 'vle PV 101325.0 0.4', sp]))
+    return out
+
+
 def corpus():
-    return [
+    return spec_grid() + [
         # history on one stream: T,P flash – scale – the same T,P flash (z bit-identical for powers of two)
         Case(['feed 1 298.15 101325.0 l:Hexane=3.0,Heptane=4.0,Octane=3.0', 'vle TP 368.0 101325.0', 'revle 2.0', 'revle 0.25',
               'revle 3.0', 'vle PV 101325.0 0.4', 'vle TP @ @', 'revle 10.0', 'rescale 1.5', 'vle TP @ @']),
